@@ -120,6 +120,10 @@ func raceReports(c *fw.Ctx, prefix string) {
 			if len(txt) > 1800 {
 				txt = txt[:1800]
 			}
+			if len(frames) == 0 {
+				// no inbucket frame at all: a race inside the harness itself is a broken check
+				c.T.Fatalf("VERIF-INFRA the -race pass found a data race in the harness, not in inbucket:\n%s", txt)
+			}
 			c.Violate("race|"+strings.Join(frames, "|"), "the race detector reports a data race:\n"+txt, map[string]string{"report": f})
 			block = nil
 		}
@@ -172,4 +176,47 @@ func init() {
 			raceRunStoreSpec(sp)
 		}
 	})})
+}
+
+// C17 race pass: concurrent SMTP sessions against a script with all five handlers.
+const c17RaceScript = `
+local n = 0
+function inbucket.before.mail_from_accepted(session)
+  n = n + 1
+  if session.from.address == "deny@x.test" then return smtp.deny(550, "no") end
+  return smtp.defer()
+end
+function inbucket.before.rcpt_to_accepted(session) return smtp.allow() end
+function inbucket.before.message_stored(msg) msg.subject = "rw " .. msg.subject; return msg end
+function inbucket.after.message_stored(msg) n = n + 1 end
+function inbucket.after.message_deleted(msg) n = n + 1 end
+`
+
+func raceRunLua() {
+	s := sys.New(sys.Spec{Store: sys.StoreSpec{Backend: "mem", Cap: 2}, SMTP: sys.DefaultSMTP(), Lua: c17RaceScript})
+	defer s.Close()
+	var wg sync.WaitGroup
+	for i, who := range []string{"deny@x.test", "a@x.test", "b@x.test", "c@x.test"} {
+		wg.Add(1)
+		go func(i int, who string) {
+			defer wg.Done()
+			k := s.DialSMTP()
+			d := &sys.SMTPDriver{K: k}
+			d.Greeting()
+			d.Cmd("HELO c")
+			if r := d.Cmd("MAIL FROM:<" + who + ">"); r.Class() == 2 {
+				d.Cmd("RCPT TO:<box@x.test>")
+				d.Data("Subject: r\r\n\r\nrace\r\n")
+			}
+			d.Cmd("QUIT")
+			k.Close()
+			<-k.Done
+		}(i, who)
+	}
+	wg.Wait()
+	time.Sleep(2 * time.Millisecond) // let the asynchronous after-events run
+}
+
+func init() {
+	fw.Register(&fw.Body{ID: "C17", Part: "race", Run: racePassRun("C17", func(c *fw.Ctx, i int) { raceRunLua() })})
 }
